@@ -22,6 +22,9 @@ define_language! {
         Let(Bind<AppliedId>, AppliedId) = "let",
         K(AppliedId, Bind<AppliedId>) = "k",
         Sum(AppliedId, Bind<Bind<AppliedId>>) = "sum",
+        /// a Slot field AFTER an AppliedId field / after a Bind field
+        W(AppliedId, Slot) = "w",
+        Wb(Bind<AppliedId>, Slot) = "wb",
         Num(u32),
         Sym(Symbol),
     }
